@@ -47,7 +47,21 @@ WalkCases ==
   UNION {{[kind |-> "walk", gi |-> gi, path |-> <<>>, op |-> [t |-> "id", v |-> Nil], cp |-> FALSE, path2 |-> <<>>,
            op2 |-> [t |-> "id", v |-> Nil], sel |-> s] : s \in WalkSels(Graphs[gi])} : gi \in DOMAIN Graphs}
 
-Init == tc \in (IF TMode = "focus" THEN FocusCases ELSE IF TMode = "focus2" THEN SeqCases ELSE WalkCases)
+\* thorough tier: two-step sequences on every graph; walking transforms over a hashed sample of ALL depth-2 selectors
+SeqCasesAll ==
+  {x \in UNION {{[kind |-> "focus2", gi |-> gi, path |-> p, op |-> op1, cp |-> TRUE, path2 |-> q, op2 |-> op2]
+            : p \in {x \in Targets(Graphs[gi]) : Len(x) <= 2 /\ x # <<>>}, q \in {x \in PathsOf(Graphs[gi], Graphs[gi][1], 2) : Len(x) >= 1},
+              op1 \in {[t |-> "repl", v |-> NewV], [t |-> "rm", v |-> Nil]},
+              op2 \in {[t |-> "rm", v |-> Nil], [t |-> "repl", v |-> I(5)], [t |-> "id", v |-> Nil]}} : gi \in DOMAIN Graphs}
+     : LET g == Graphs[x.gi]  r == Upd(Expand(g, g[1]), x.path, x.op, TRUE)
+       IN InScope(g, x.path, x.op) /\ r.ok /\ r.v # Nil /\ At(r.v, x.path2) # Nil}
+WalkCases2 ==
+  UNION {{[kind |-> "walk", gi |-> gi, path |-> <<>>, op |-> [t |-> "id", v |-> Nil], cp |-> FALSE, path2 |-> <<>>,
+           op2 |-> [t |-> "id", v |-> Nil], sel |-> s]
+            : s \in {x \in Closed(2, Graphs[gi]) : SelWeight(x) % 13 = Sample /\ Compiles(x, FALSE)}} : gi \in DOMAIN Graphs}
+
+Init == tc \in (CASE TMode = "focus" -> FocusCases [] TMode = "focus2" -> SeqCases [] TMode = "focus2all" -> SeqCasesAll
+                   [] TMode = "walk2" -> WalkCases2 [] OTHER -> WalkCases)
 Next == UNCHANGED tc
 Spec == Init /\ [][Next]_tvars
 
